@@ -109,6 +109,10 @@ add(Job('is_ipv6', 'harness/is_ipv6.c', enforce='is_ipv6', replace=['is_ipv4'], 
         expect=['postcondition', 'assigns', 'unwind'], functions=['is_ipv6'], files=['src/is_ipv4_ipv6.c'], assumptions=[A1, A5, A9],
         bounded='input length <= 45 bytes (fixed 46-byte object); within that bound the loop is fully unwound (18, unwinding assertion discharged), so the result is complete for all inputs up to 45 bytes and says nothing about longer ones',
         note='no loop invariant: the loop runs <= 17 times (unwinding assertion is an obligation). A length lemma for longer inputs (design-probes/is_ipv6_len_attempt.c) ran out of memory and is not part of the claim'))
+add(Job('is_ipv6_anylen', 'harness/is_ipv6.c', enforce='is_ipv6', replace=['is_ipv4'], timeout=4200, reach=4, mem_est=22, mem_gb=30, solvers=('minisat2+ra',), defines=['-DIPV6_ANYLEN'],
+        unwindset=[('is_ipv6_wrapped_for_contract_checking.0', 18)],
+        expect=['postcondition', 'assigns', 'unwind'], functions=['is_ipv6'], files=['src/is_ipv4_ipv6.c'], assumptions=[A1, A5, A9],
+        note='the same contract as job is_ipv6 with an input of every length (object of g_len+1 bytes, g_len <= 2^31-16): the loop runs <= 17 times whatever the length (unwinding assertion is an obligation), so this is not a bounded result. 26 min / 18 GB with array constraints added on demand (--refine-arrays); thorough tier only'))
 add(Job('is_ipaddr', 'harness/is_ipaddr.c', enforce='is_ipaddr', replace=['is_ipv4', 'is_ipv6'], timeout=300, reach=2,
         expect=['postcondition', 'assigns'], functions=['is_ipaddr'], files=['src/is_ipv4_ipv6.c'], assumptions=[A3, A9]))
 
@@ -174,7 +178,7 @@ add(Job('is_6531_local+rfc20', 'harness/is_6531_local.c', enforce='is_6531_local
         functions=['is_6531_local (RFC6531_FOLLOW_RFC20 build)'], files=['src/is_6531_local.c', 'src/utf8_decode.c'], assumptions=[A1, A9]))
 add(Job('is_6531_local+rfc5322', 'harness/is_6531_local_rfc5322.c', enforce='is_6531_local', loops=True, timeout=2400, reach=4, defines=['-DRFC6531_FOLLOW_RFC5322'],
         extra_sources=['src/utf8_decode.c'], expect=['postcondition', 'loop_invariant_base', 'loop_invariant_step', 'loop_decreases', 'assigns'], mem_est=3,
-        solvers=('minisat2',), extra_cbmc=['--refine-arrays'],
+        solvers=('minisat2+ra',),
         functions=['is_6531_local (RFC6531_FOLLOW_RFC5322 build)', 'utf8_decode_init/next/at_byte (inlined)'], files=['src/is_6531_local.c', 'src/utf8_decode.c'], assumptions=[A1, A9],
         note='option build: while only ASCII characters have been read the scanner follows the RFC 5322 specification automaton (the one job is_5322_local is proved against), both directions; accept => the whole input is well-formed UTF-8'))
 add(Job('is_ascii_domain+underscore', 'harness/is_ascii_domain.c', enforce='is_ascii_domain', loops=True, timeout=900, reach=3, defines=['-DLABELS_ALLOW_UNDERSCORE'],
@@ -226,7 +230,20 @@ add(Job('lemma_rank_inst', 'harness/lemma_rank.c', no_dfcc=True, defines=['-DPAR
         note='loop-free; monotonicity instances are assumed here and proved in lemma_rank'))
 add(Job('cli_sanitize', 'harness/cli_sanitize.c', enforce='sanitize_utf8', loops=True, timeout=1200, reach=2, mem_est=10,
         expect=['postcondition', 'loop_invariant_base', 'loop_invariant_step', 'loop_decreases'], functions=['sanitize_utf8 (bin/main.h)'], files=['bin/main.h'], assumptions=[A2, A9],
-        note='CLI helper; text length <= 2^31; not part of any claimed property (C20 is not claimed), kept because it proves the repaired function'))
+        note='CLI helper; text length <= 2^31: no write outside the buffer, NUL-terminated result, text without control characters echoed unchanged'))
+A8 = 'A8: models of the C library used by the eav tool: getline returns EOF or a fresh NUL-terminated buffer of >= 1 arbitrary bytes (a NUL inside the line is allowed), strlen answers from the ghost position of the first NUL, fprintf is a recording model keyed on the format string, fopen may fail; fewer than 2^31 lines per file (the tool counts in int)'
+CLI_EXTRACT = 'the body of the getline loop is cut out of bin/main.c by tools/extract_cli_body.py on every run (kept byte for byte except continue -> goto; dropped: prologue, loop header, epilogue - covered by the bounded job)'
+add(Job('cli_parse_line', 'harness/cli_parse_line.c', enforce='parse_line', replace=['eav_is_email', 'eav_errstr', 'sanitize_utf8'], timeout=600, reach=4, mem_est=2,
+        expect=['postcondition', 'precondition', 'assigns'], functions=['parse_file: body of the getline loop (extracted as parse_line)'], files=['bin/main.c', 'bin/main.h'], assumptions=[A8, A9, CLI_EXTRACT],
+        note='loop-free, every line length < 2^31: the library is asked once about exactly the trimmed line, one PASS/FAIL record agrees with its answer and echoes sanitize_utf8 of the same text, FAIL is followed by eav_errstr, comment lines produce nothing'))
+add(Job('cli_parse_file_bounded', 'harness/cli_parse_file_bounded.c', no_dfcc=True, unwind=10, defines=['-DCLI_LINES=5', '-DCLI_BYTES=8'], timeout=600, reach=2, mem_est=2,
+        expect=['unwind', 'assertion'], functions=['parse_file (whole function)'], files=['bin/main.c', 'bin/main.h'], assumptions=[A8],
+        bounded='files of at most 5 lines of at most 8 bytes each; loops unwound 10 times with unwinding assertions; getline re-allocates its buffer on every call; library calls and sanitize_utf8 are checking stubs',
+        note='plain CBMC (no contracts, real malloc/free): file closed, every buffer released, one record per non-comment line, one summary line, no memory error'))
+add(Job('cli_main_bounded', 'harness/cli_parse_file_bounded.c', no_dfcc=True, unwind=6, defines=['-DCLI_MAIN', '-DCLI_LINES=2', '-DCLI_BYTES=3'], timeout=600, reach=2, mem_est=2,
+        expect=['unwind', 'assertion'], functions=['main (bin/main.c)', 'parse_file'], files=['bin/main.c', 'bin/main.h'], assumptions=[A8],
+        bounded='at most 2 file arguments, files of at most 2 lines of at most 3 bytes; loops unwound 6 times with unwinding assertions',
+        note='plain CBMC: eav_init, then eav_setup on the untouched defaults, one parse_file per file argument, eav_free; exit status 0/1/2; nothing left open'))
 add(Job('lemma_local', 'harness/lemma_local.c', no_dfcc=True, timeout=300, reach=1, expect=['assertion'],
         functions=['spec automata (lemmas)'], files=[], note='loop-free over a symbolic (state, character) pair: complete'))
 
@@ -267,3 +284,12 @@ def prepare(work):
     spec = importlib.util.spec_from_file_location('csv2spec', os.path.join(VERIF, 'tools', 'csv2spec.py'))
     m = importlib.util.module_from_spec(spec); spec.loader.exec_module(m)
     m.main(REPO, os.path.join(work, 'spec_tld.h'))
+    # C20: the body of parse_file's getline loop, cut out of /repo's current bin/main.c.  A failed extraction must not
+    # disturb other properties: the generated file then holds an #error, and only the job that includes it is undecided.
+    spec = importlib.util.spec_from_file_location('extract_cli_body', os.path.join(VERIF, 'tools', 'extract_cli_body.py'))
+    x = importlib.util.module_from_spec(spec); spec.loader.exec_module(x)
+    out = os.path.join(work, 'cli_parse_line.gen.h')
+    try:
+        x.main(REPO, out)
+    except Exception as e:
+        open(out, 'w').write('#error "tools/extract_cli_body.py: extraction failed: %s"\n' % str(e).replace('"', "'"))
